@@ -46,6 +46,7 @@ type Contract struct {
 	Allocates  []string
 	LoopInv    map[int][]*Clause
 	LoopDec    map[int]*Clause
+	LoopMod    map[int][]*Clause // precise frame of a loop: only these locations (and fresh objects) change
 	Asserts    []*Clause
 	Pure       bool
 	Trusted    bool // contract is assumed (dependency or explicitly trusted repo function)
@@ -53,6 +54,7 @@ type Contract struct {
 	NoPanic    bool // explicit request for the safety sweep only
 	Arith      bool // machine-integer overflow obligations on + - * and narrowing conversions
 	Lib        bool
+	SameAs     string // take requires/ensures/modifies from another contract of the same package
 	Tags       []string
 	Src        string
 }
@@ -92,13 +94,13 @@ func NewSpecDB() *SpecDB {
 	return &SpecDB{Contracts: map[string]*Contract{}, Specs: map[string]*SpecFn{}, UFuns: map[string]*UFunDecl{}, Ghosts: map[string]Sort{}, PureFns: map[string]bool{}, PurePkgs: map[string]bool{}}
 }
 
-var tagRe = regexp.MustCompile(`\s*\[((?:C[0-9]{2,3}|[a-z_]+)(?:\s*,\s*(?:C[0-9]{2,3}|[a-z_]+))*)\]\s*$`)
+var tagRe = regexp.MustCompile(`\s+\[(C[0-9]{2,3}(?:\s*,\s*C[0-9]{2,3})*)\]\s*$`)
 
 var clauseKeywords = map[string]bool{
 	"func": true, "requires": true, "ensures": true, "modifies": true, "allocates": true,
 	"loop": true, "pure": true, "trusted": true, "inline": true, "tags": true, "spec": true,
 	"ufun": true, "axiom": true, "ghost": true, "package": true, "lib": true, "nopanic": true, "arith": true,
-	"purepkg": true, "purefn": true,
+	"purepkg": true, "purefn": true, "sameas": true,
 }
 
 // LoadFile parses one contract or spec file. defaultPkg is the Go package path
@@ -287,6 +289,8 @@ func (db *SpecDB) LoadFile(path, defaultPkg string, lib bool) error {
 				for _, t := range strings.Split(rest, ",") {
 					cur.Tags = append(cur.Tags, strings.TrimSpace(t))
 				}
+			case kw == "sameas":
+				cur.SameAs = strings.TrimSpace(rest)
 			case kw == "pure":
 				cur.Pure = true
 			case kw == "trusted":
@@ -348,6 +352,26 @@ func (db *SpecDB) LoadFile(path, defaultPkg string, lib bool) error {
 					ids = append(ids, n)
 				}
 				k2, body := splitKw(strings.TrimSpace(rest[col+1:]))
+				if k2 == "modifies" {
+					for _, id := range ids {
+						if _, ok := cur.LoopMod[id]; !ok {
+							cur.LoopMod[id] = []*Clause{}
+						}
+						for _, part := range splitTopLevel(body, ',') {
+							part = strings.TrimSpace(part)
+							if part == "" || part == "nothing" {
+								continue
+							}
+							pe, err := ParseExpr(part)
+							if err != nil {
+								fail(l.no, "%v", err)
+								continue
+							}
+							cur.LoopMod[id] = append(cur.LoopMod[id], &Clause{Kind: "modifies", Expr: pe, Text: part, Tags: tags, Src: src})
+						}
+					}
+					continue
+				}
 				e, err := ParseExpr(body)
 				if err != nil {
 					fail(l.no, "%v", err)
@@ -445,7 +469,7 @@ func parseHeader(hdr, pkg string) (*Contract, error) {
 	if !ok {
 		return nil, fmt.Errorf("contract header %q: not a function", hdr)
 	}
-	c := &Contract{Pkg: pkg, Header: hdr, LoopInv: map[int][]*Clause{}, LoopDec: map[int]*Clause{}}
+	c := &Contract{Pkg: pkg, Header: hdr, LoopInv: map[int][]*Clause{}, LoopDec: map[int]*Clause{}, LoopMod: map[int][]*Clause{}}
 	name := fd.Name.Name
 	if fd.Recv != nil && len(fd.Recv.List) == 1 {
 		r := fd.Recv.List[0]
@@ -495,6 +519,30 @@ func recvTypeName(e ast.Expr) (string, bool) {
 		return t.Sel.Name, false
 	}
 	return "?", false
+}
+
+// ResolveSameAs copies the clauses of referenced contracts (call after all files are loaded).
+func (db *SpecDB) ResolveSameAs() {
+	for _, c := range db.Contracts {
+		if c.SameAs == "" {
+			continue
+		}
+		ref := c.SameAs
+		if !strings.Contains(ref, "/") {
+			ref = c.Pkg + "." + ref
+		}
+		o := db.Contracts[ref]
+		if o == nil {
+			db.Errors = append(db.Errors, fmt.Sprintf("%s: sameas %s: no such contract", c.Src, ref))
+			continue
+		}
+		c.Requires, c.Ensures, c.Modifies, c.HasMod, c.Allocates = o.Requires, o.Ensures, o.Modifies, o.HasMod, o.Allocates
+		c.Pure = o.Pure
+		c.RecvName, c.ParamNames = o.RecvName, o.ParamNames
+		if len(c.Tags) == 0 {
+			c.Tags = o.Tags
+		}
+	}
 }
 
 // KeysSorted returns contract keys in a stable order.
